@@ -140,6 +140,13 @@ class FakeMultiTherm:
         from kawin.thermo.MultiTherm import _growthRateOutputFromCurvature
         from kawin.thermo.utils import _process_x
         self.log.append(("getGrowthAndInterfacialComposition", float(T)))
+        nR = int(np.size(R))
+        regrid = getattr(self, "_lastR", {}).get(precPhase, nR) != nR and nR > 1
+        if nR > 1:
+            self._lastR = dict(getattr(self, "_lastR", {}), **{precPhase: nR})
+        # "growth_regrid": fail the first growth evaluation that follows a change of the size-class grid (k-th occurrence)
+        if regrid and self.faults.hit("growth_regrid"):
+            return None
         if self.faults.hit("growth"):
             return None
         c = self.curvatureFactor(x, T, precPhase)
